@@ -220,9 +220,15 @@ macro_rules! aggregation_func_template {
                         any(target_arch = "x86", target_arch = "x86_64")
                     ))] {
                         // Detect runtime CPU features, cache and call
+                        #[cfg(fast_tlsh_verif)]
+                        crate::verif::sched_point(concat!("enter:", stringify!($name)));
                         $dispatch.get_or_init(|| {
+                            #[cfg(fast_tlsh_verif)]
+                            crate::verif::sched_point(concat!("init:", stringify!($name)));
                             #[cfg(any(target_arch = "x86", target_arch = "x86_64"))]
                             {
+                                #[cfg(fast_tlsh_verif)]
+                                crate::verif::sched_point(concat!("probe-avx2:", stringify!($name)));
                                 if is_x86_feature_detected!("avx2") {
                                     return &|out, buckets, q1, q2, q3| {
                                         #[allow(unsafe_code)]
@@ -231,6 +237,8 @@ macro_rules! aggregation_func_template {
                                         }
                                     };
                                 }
+                                #[cfg(fast_tlsh_verif)]
+                                crate::verif::sched_point(concat!("probe-ssse3:", stringify!($name)));
                                 if is_x86_feature_detected!("ssse3") {
                                     return &|out, buckets, q1, q2, q3| {
                                         #[allow(unsafe_code)]
@@ -239,6 +247,8 @@ macro_rules! aggregation_func_template {
                                         }
                                     };
                                 }
+                                #[cfg(fast_tlsh_verif)]
+                                crate::verif::sched_point(concat!("probe-sse2:", stringify!($name)));
                                 if is_x86_feature_detected!("sse2") {
                                     return &|out, buckets, q1, q2, q3| {
                                         #[allow(unsafe_code)]
@@ -248,6 +258,8 @@ macro_rules! aggregation_func_template {
                                     };
                                 }
                             }
+                            #[cfg(fast_tlsh_verif)]
+                            crate::verif::sched_point(concat!("fallback:", stringify!($name)));
                             &naive::$name
                         })(out, buckets, q1, q2, q3)
                     }
@@ -317,6 +329,111 @@ aggregation_func_template! {
     aggregate_48  = (12,  48, DISPATCH_AGGREGATE_48);
     aggregate_128 = (32, 128, DISPATCH_AGGREGATE_128);
     aggregate_256 = (64, 256, DISPATCH_AGGREGATE_256);
+}
+
+/// Verification hooks: direct entry points to each compiled backend.
+///
+/// Each function returns `false` (and leaves `out` untouched) if the backend
+/// named `backend` is not compiled in this configuration or the CPU lacks the
+/// required feature.
+#[cfg(fast_tlsh_verif)]
+#[allow(missing_docs)]
+pub mod verif_backends {
+    /// Names of all backends this module may know about.
+    pub const BACKENDS: &[&str] = &["dispatch", "naive", "sse2", "ssse3", "avx2"];
+
+    /// Generates backend selection functions like [`aggregate_128()`].
+    macro_rules! backend_func_template {
+        {$($name:ident = ($size_small:literal, $size_large:literal);)*} => {
+            $(
+                pub fn $name(
+                    backend: &str,
+                    out: &mut [u8; $size_small],
+                    buckets: &[u32; $size_large],
+                    q1: u32,
+                    q2: u32,
+                    q3: u32
+                ) -> bool {
+                    match backend {
+                        "dispatch" => {
+                            super::$name(out, buckets, q1, q2, q3);
+                            true
+                        }
+                        "naive" => {
+                            super::naive::$name(out, buckets, q1, q2, q3);
+                            true
+                        }
+                        #[cfg(all(
+                            feature = "simd-per-arch",
+                            feature = "opt-simd-bucket-aggregation",
+                            feature = "detect-features",
+                            any(target_arch = "x86", target_arch = "x86_64")
+                        ))]
+                        "sse2" => {
+                            if is_x86_feature_detected!("sse2") {
+                                #[allow(unsafe_code)]
+                                unsafe {
+                                    super::x86_sse2::$name(out, buckets, q1, q2, q3)
+                                }
+                                true
+                            } else {
+                                false
+                            }
+                        }
+                        #[cfg(all(
+                            feature = "simd-per-arch",
+                            feature = "opt-simd-bucket-aggregation",
+                            feature = "detect-features",
+                            any(target_arch = "x86", target_arch = "x86_64")
+                        ))]
+                        "ssse3" => {
+                            if is_x86_feature_detected!("ssse3") {
+                                #[allow(unsafe_code)]
+                                unsafe {
+                                    super::x86_ssse3::$name(out, buckets, q1, q2, q3)
+                                }
+                                true
+                            } else {
+                                false
+                            }
+                        }
+                        #[cfg(all(
+                            feature = "simd-per-arch",
+                            feature = "opt-simd-bucket-aggregation",
+                            feature = "detect-features",
+                            any(target_arch = "x86", target_arch = "x86_64")
+                        ))]
+                        "avx2" => {
+                            if is_x86_feature_detected!("avx2") {
+                                #[allow(unsafe_code)]
+                                unsafe {
+                                    super::x86_avx2::$name(out, buckets, q1, q2, q3)
+                                }
+                                true
+                            } else {
+                                false
+                            }
+                        }
+                        _ => false,
+                    }
+                }
+            )*
+        }
+    }
+
+    #[cfg(all(
+        feature = "simd-per-arch",
+        feature = "opt-simd-bucket-aggregation",
+        feature = "detect-features",
+        any(target_arch = "x86", target_arch = "x86_64")
+    ))]
+    use std::arch::is_x86_feature_detected;
+
+    backend_func_template! {
+        aggregate_48  = (12,  48);
+        aggregate_128 = (32, 128);
+        aggregate_256 = (64, 256);
+    }
 }
 
 mod tests;
